@@ -447,6 +447,11 @@ func cmdC13(tier string, seed int64, out, statsOut, replay string) {
 		}
 		// a tree addressed to one format whose source is a symbolic link to a directory (whatever resolves the link keeps the address)
 		gen.cfg.Contents = append(gen.cfg.Contents, &files.Content{Source: "src/lnkdir", Destination: fmt.Sprintf("/opt/c13-%d/linked-tree", i), Type: "tree", Packager: allFormats[i%len(allFormats)]})
+		// typed entries (licence, doc, readme, ghost: types only rpm knows) that are ALSO addressed to a packager
+		gen.cfg.Contents = append(gen.cfg.Contents,
+			&files.Content{Source: "src/f1", Destination: fmt.Sprintf("/usr/share/licenses/c13-%d/LICENSE", i), Type: []string{"license", "licence"}[i%2], Packager: "rpm"},
+			&files.Content{Source: "src/f2", Destination: fmt.Sprintf("/usr/share/doc/c13-%d/README", i), Type: []string{"readme", "doc"}[i%2], Packager: allFormats[(i+1)%len(allFormats)]},
+			&files.Content{Destination: fmt.Sprintf("/var/log/c13-%d.log", i), Type: "ghost", Packager: allFormats[(i+2)%len(allFormats)]})
 		if rng.Intn(4) == 0 {
 			gen.cfg.Overrides[nearMisses[rng.Intn(len(nearMisses))]] = &nfpm.Overridables{Depends: []string{"x"}}
 		}
